@@ -424,17 +424,23 @@ fn substring(
 ) -> error::Result<model::Value> {
     let mut args = args.iter();
     let v = String::try_from(args.next().unwrap())?;
-    let s = f64::try_from(args.next().unwrap())?.round() as usize - 1;
-    let c = if let Some(v) = args.next() {
-        Some(f64::try_from(v)?.round() as usize)
+    let start = round_number(f64::try_from(args.next().unwrap())?);
+    let end = if let Some(v) = args.next() {
+        Some(start + round_number(f64::try_from(v)?))
     } else {
         None
     };
-    let (_, mut r) = v.split_at(s);
-    if let Some(c) = c {
-        (r, _) = r.split_at(c);
-    }
-    Ok(model::Value::Text(r.to_string()))
+    // The position of the first character is 1; a comparison with NaN is false.
+    let r = v
+        .chars()
+        .enumerate()
+        .filter(|(i, _)| {
+            let position = (i + 1) as f64;
+            position >= start && end.map(|end| position < end).unwrap_or(true)
+        })
+        .map(|(_, ch)| ch)
+        .collect::<String>();
+    Ok(model::Value::Text(r))
 }
 
 fn string_length(
